@@ -16,8 +16,8 @@ impl DateTime {
         let gps_time_text = node
             .children()
             .find(|n| crate::xml::is_tag(n, "dateTimeValue") && n.attribute("type") == Some("Float"))
-            .invalid_err("Unable to find XML tag 'dateTimeValue' with type 'Float'")?
-            .text();
+            .invalid_err("Unable to find XML tag 'dateTimeValue' with type 'Float'")?;
+        let gps_time_text = crate::xml::text_of(&gps_time_text);
         let gps_time = if let Some(text) = gps_time_text {
             text.parse::<f64>()
                 .invalid_err("Failed to parse inner text of XML tag 'dateTimeValue' as double")?
@@ -30,7 +30,11 @@ impl DateTime {
         });
         let atomic_reference = if let Some(node) = atomic_reference_node {
             // Any valid integer representation of one (e.g. "1", "+1" or "01") means true
-            node.text().unwrap_or("0").trim().parse::<i64>() == Ok(1)
+            crate::xml::text_of(&node)
+                .unwrap_or_else(|| "0".to_string())
+                .trim()
+                .parse::<i64>()
+                == Ok(1)
         } else {
             // The flag is optional, a date time without it is not atomic clock referenced
             false
